@@ -5,8 +5,11 @@
 EXTENDS Integers
 RECURSIVE GCD(_,_)
 GCD(a,b) == IF b = 0 THEN (IF a < 0 THEN -a ELSE a) ELSE GCD(b, a % b)
-Norm(n,d) == LET g == GCD(n,d) s == IF d < 0 THEN -1 ELSE 1 IN
-             IF n = 0 THEN <<0,1>> ELSE <<s*(n \div g), s*(d \div g)>>
+\* (TLC's % needs a positive modulus: the sign of the denominator is moved to the numerator before GCD is taken)
+Norm(n,d) == LET nn == IF d < 0 THEN -n ELSE n
+                 dd == IF d < 0 THEN -d ELSE d
+                 g == GCD(IF nn < 0 THEN -nn ELSE nn, dd) IN
+             IF n = 0 THEN <<0,1>> ELSE <<nn \div g, dd \div g>>
 R(n) == <<n,1>>
 RZero == <<0,1>>
 ROne == <<1,1>>
